@@ -154,6 +154,7 @@ Definition astep (a : ast) (o : op) : list Z * ast :=
           | None => ([1], a2)
           end
       else ([], a)
+  | OAdoptNull i ty _ => if okh H i && okty ty then ([1; ty; 1], a_clear (hslot i) a) else ([], a)
   end.
 
 Fixpoint arun (a : ast) (ops : list op) : list (list Z) * ast :=
@@ -178,6 +179,7 @@ Definition sstep (a : ast) (o : op) : ast :=
       end
   | OSwap i j => if okh H i && okh H j then aset (hslot j) (aslot a (hslot i)) (aset (hslot i) (aslot a (hslot j)) a) else a
   | OClear i => if okh H i then aset (hslot i) None a else a
+  | OAdoptNull i ty _ => if okh H i && okty ty then aset (hslot i) None a else a
   | ONew ty v => if okty ty then a_new ty v a else a
   | OCDel k => if 0 <=? k then a_cdel (Z.to_nat k) a else a
   | OAdopt i k => if okh H i && (0 <=? k) then a_adopt (hslot i) (Z.to_nat k) a else a
